@@ -3,7 +3,6 @@ package main
 import (
 	"fmt"
 	"go/token"
-	"go/types"
 	"sort"
 	"strings"
 
@@ -420,47 +419,98 @@ func propC15(c *Ctx) {
 
 	// ---- R15.4 ---------------------------------------------------------------
 	c.Rule("R15.4", "wstrings.Safe accepts only letters, digits, '_' and '-'", 3)
-	{
-		okConsts, okCalls := true, true
-		nCmp := 0
-		allInstrs(safe, func(in ssa.Instruction) {
+	checkSafeWhitelist(c, safe)
+}
+
+// checkSafeWhitelist: Safe returns nil only if every rune of its argument is a
+// letter, a digit, '_' or '-'.  Decided as a reachability question that does
+// not depend on how the predicate is written: assume that for the rune under
+// examination none of the four whitelist tests is true (their true-edges are
+// cut); then no path may reach an accepting outcome.  Supported iteration
+// idioms: a range loop over the string, and strings.IndexFunc /
+// strings.ContainsFunc with a predicate function of the repository.
+func checkSafeWhitelist(c *Ctx, safe *ssa.Function) {
+	// edges on which a whitelist test on rune r is true
+	whitelistTrue := func(fn *ssa.Function, r ssa.Value) []Edge {
+		var out []Edge
+		isR := func(v ssa.Value) bool { return stripNum(v) == r || sameVar(stripNum(v), r) }
+		allInstrs(fn, func(in ssa.Instruction) {
 			switch x := in.(type) {
-			case *ssa.BinOp:
-				if x.Op == token.EQL || x.Op == token.NEQ {
-					if k, ok := constInt(x.Y); ok {
-						if _, isC := x.Y.(*ssa.Const); isC && x.X.Type().Underlying().(*types.Basic).Kind() == types.Int32 {
-							nCmp++
-							if k != '_' && k != '-' {
-								okConsts = false
-							}
-						}
-					}
-				} else if x.Op == token.LSS || x.Op == token.GTR || x.Op == token.LEQ || x.Op == token.GEQ {
-					if b, ok := x.X.Type().Underlying().(*types.Basic); ok && b.Kind() == types.Int32 {
-						okConsts = false // range comparisons on runes: not the reviewed whitelist
-					}
-				}
 			case *ssa.Call:
 				switch calleeName(x) {
-				case "unicode.IsLetter", "unicode.IsDigit", "errors.New", "fmt.Errorf":
-				default:
-					if _, isB := x.Call.Value.(*ssa.Builtin); !isB {
-						okCalls = false
+				case "unicode.IsLetter", "unicode.IsDigit":
+					if len(x.Call.Args) == 1 && isR(x.Call.Args[0]) {
+						t, _ := boolEdges(x)
+						out = append(out, t...)
 					}
 				}
-			}
-		})
-		c.Check("R15.4", "Safe/accepted-set", safe.Pos(), okConsts && okCalls && nCmp <= 2, "accepting predicate = unicode.IsLetter | unicode.IsDigit | rune ∈ {'_','-'}")
-		// return nil only when the loop is exhausted; the rejecting arm returns non-nil
-		var done []Edge
-		allInstrs(safe, func(in ssa.Instruction) {
-			if ex, ok := in.(*ssa.Extract); ok && ex.Index == 0 {
-				if _, isNext := ex.Tuple.(*ssa.Next); isNext {
-					_, f := boolEdges(ex)
-					done = append(done, f...)
+			case *ssa.BinOp:
+				if x.Op != token.EQL && x.Op != token.NEQ {
+					return
+				}
+				var k int64
+				var ok bool
+				switch {
+				case isR(x.X):
+					k, ok = constInt(x.Y)
+				case isR(x.Y):
+					k, ok = constInt(x.X)
+				}
+				if !ok || (k != '_' && k != '-') {
+					return
+				}
+				t, f := boolEdges(x)
+				if x.Op == token.EQL {
+					out = append(out, t...)
+				} else {
+					out = append(out, f...)
 				}
 			}
 		})
+		return out
+	}
+	decided := false
+	// idiom A: for _, r := range s { … }
+	allInstrs(safe, func(in ssa.Instruction) {
+		nx, ok := in.(*ssa.Next)
+		if !ok || !nx.IsString {
+			return
+		}
+		var okV, runeV ssa.Value
+		for _, ref := range *nx.Referrers() {
+			if ex, isEx := ref.(*ssa.Extract); isEx {
+				switch ex.Index {
+				case 0:
+					okV = ex
+				case 2:
+					runeV = ex
+				}
+			}
+		}
+		if okV == nil {
+			return
+		}
+		decided = true
+		body, done := boolEdges(okV)
+		if runeV == nil {
+			c.Violation("R15.4", "Safe/accepted-set", safe.Pos(), "the loop over the string never looks at the rune")
+			return
+		}
+		cuts := newCuts().addEdges(whitelistTrue(safe, runeV))
+		accept := false
+		why := ""
+		for _, e := range body {
+			if hit, _ := reach(Site{e.To, -1}, func(x ssa.Instruction) bool {
+				if r, isR := x.(*ssa.Return); isR {
+					return isNilConst(returnValues(r)[0])
+				}
+				return x == ssa.Instruction(nx) // the next rune is fetched: this one was accepted
+			}, cuts); hit {
+				accept = true
+				why = "a rune that is neither a letter, a digit, '_' nor '-' can be accepted (the loop goes on, or nil is returned)"
+			}
+		}
+		c.Check("R15.4", "Safe/accepted-set", safe.Pos(), !accept, "a rune is accepted only through unicode.IsLetter, unicode.IsDigit, == '_' or == '-' "+why)
 		okNil, okRej := false, false
 		for _, r := range returnsOf(safe) {
 			v := returnValues(r)[0]
@@ -472,6 +522,131 @@ func propC15(c *Ctx) {
 		}
 		c.Check("R15.4", "Safe/nil-only-after-all-runes", safe.Pos(), okNil, "nil is returned only after every rune was examined")
 		c.Check("R15.4", "Safe/rejects", safe.Pos(), okRej, "a rune outside the set returns a non-nil error")
+	})
+	if decided {
+		return
+	}
+	// idiom B: strings.IndexFunc(s, pred) < 0 / !strings.ContainsFunc(s, pred), pred = "this rune is not allowed"
+	for _, ci := range callsIn(safe) {
+		call, ok := ci.(*ssa.Call)
+		if !ok {
+			continue
+		}
+		name := calleeName(call)
+		if name != "strings.IndexFunc" && name != "strings.ContainsFunc" {
+			continue
+		}
+		if p, isP := stripConv(call.Call.Args[0]).(*ssa.Parameter); !isP || p.Parent() != safe {
+			continue
+		}
+		var pred *ssa.Function
+		switch x := stripConv(call.Call.Args[1]).(type) {
+		case *ssa.Function:
+			pred = x
+		case *ssa.MakeClosure:
+			pred = x.Fn.(*ssa.Function)
+		}
+		if pred == nil || pred.Blocks == nil || len(pred.Params) != 1 {
+			continue
+		}
+		decided = true
+		// no rune reported: the edges on which the search found nothing
+		var none []Edge
+		if name == "strings.ContainsFunc" {
+			_, none = boolEdges(call)
+		} else {
+			lt, _ := cmpEdges(safe, func(b *ssa.BinOp) bool {
+				k, ok := constInt(b.Y)
+				return b.X == ssa.Value(call) && ok && ((b.Op == token.LSS && k == 0) || (b.Op == token.EQL && k == -1) || (b.Op == token.LEQ && k == -1))
+			})
+			_, ge := cmpEdges(safe, func(b *ssa.BinOp) bool {
+				k, ok := constInt(b.Y)
+				return b.X == ssa.Value(call) && ok && ((b.Op == token.GEQ && k == 0) || (b.Op == token.NEQ && k == -1) || (b.Op == token.GTR && k == -1))
+			})
+			none = append(lt, ge...)
+		}
+		// with every whitelist test false the predicate must say "not allowed" (true)
+		cuts := newCuts().addEdges(whitelistTrue(pred, pred.Params[0]))
+		accept, _ := reach(entrySite(pred), func(x ssa.Instruction) bool {
+			r, isR := x.(*ssa.Return)
+			if !isR {
+				return false
+			}
+			for _, lf := range phiLeaves(returnValues(r)[0]) {
+				if k, isC := lf.Val.(*ssa.Const); !isC || k.Value == nil || k.Value.String() != "true" {
+					return true // may report "allowed"
+				}
+			}
+			return false
+		}, cuts)
+		c.Check("R15.4", "Safe/accepted-set", safe.Pos(), !accept, "the rune predicate reports 'not allowed' unless unicode.IsLetter, unicode.IsDigit, == '_' or == '-' holds")
+		okNil, okRej := false, false
+		for _, r := range returnsOf(safe) {
+			v := returnValues(r)[0]
+			if isNilConst(v) {
+				okNil = len(none) > 0 && guardedByEdges(safe, r, none)
+			} else if definitelyNonNilError(v, nil) {
+				okRej = true
+			}
+		}
+		c.Check("R15.4", "Safe/nil-only-after-all-runes", safe.Pos(), okNil, "nil is returned only when no rune of the string is reported as not allowed")
+		c.Check("R15.4", "Safe/rejects", safe.Pos(), okRej, "a rune outside the set returns a non-nil error")
+	}
+	// idiom C: for i := 0; i < len(s); { r, n := utf8.DecodeRuneInString(s[i:]); …; i += n }
+	if !decided {
+		for _, ci := range callsIn(safe) {
+			call, ok := ci.(*ssa.Call)
+			if !ok || calleeName(call) != "unicode/utf8.DecodeRuneInString" {
+				continue
+			}
+			sl, ok := stripConv(call.Call.Args[0]).(*ssa.Slice)
+			if !ok || sl.Low == nil || sl.High != nil {
+				continue
+			}
+			if p, isP := stripConv(sl.X).(*ssa.Parameter); !isP || p.Parent() != safe {
+				continue
+			}
+			aff := &affEnv{}
+			lo, hi, enter, _, okLoop := aff.loopRangeBy(sl.Low, extractOf(call, 1))
+			runeV := extractOf(call, 0)
+			decided = true
+			if !okLoop || runeV == nil {
+				c.Violation("R15.4", "Safe/every-rune-examined", call.Pos(), "the decoding loop does not advance by exactly the width of the rune it decoded: characters are skipped (or examined twice)")
+				continue
+			}
+			full := linEq(lo, konst(0)) && linEq(hi, aff.lenOf(sl.X, 0))
+			c.Check("R15.4", "Safe/every-rune-examined", call.Pos(), full, "the decoding loop runs from byte 0 to len(s), advancing by the width of each decoded rune")
+			cuts := newCuts().addEdges(whitelistTrue(safe, runeV))
+			accept, _ := reach(siteOf(call), func(x ssa.Instruction) bool {
+				if r, isR := x.(*ssa.Return); isR {
+					return isNilConst(returnValues(r)[0])
+				}
+				return x == ssa.Instruction(call)
+			}, cuts)
+			c.Check("R15.4", "Safe/accepted-set", safe.Pos(), !accept, "a rune is accepted only through unicode.IsLetter, unicode.IsDigit, == '_' or == '-'")
+			var done []Edge
+			for _, e := range enter {
+				for _, s2 := range e.From.Succs {
+					if s2 != e.To {
+						done = append(done, Edge{e.From, s2})
+					}
+				}
+			}
+			okNil, okRej := false, false
+			for _, r := range returnsOf(safe) {
+				v := returnValues(r)[0]
+				if isNilConst(v) {
+					okNil = len(done) > 0 && guardedByEdges(safe, r, done)
+				} else if definitelyNonNilError(v, nil) {
+					okRej = true
+				}
+			}
+			c.Check("R15.4", "Safe/nil-only-after-all-runes", safe.Pos(), okNil, "nil is returned only after every rune was examined")
+			c.Check("R15.4", "Safe/rejects", safe.Pos(), okRej, "a rune outside the set returns a non-nil error")
+		}
+	}
+	if !decided {
+		c.Undecided("R15.4", "Safe/iteration-idiom", safe.Pos(), "wstrings.Safe neither ranges over its argument nor uses strings.IndexFunc/ContainsFunc with a predicate of the repository: the accepted set cannot be read off this shape")
 	}
 }
 
